@@ -1313,6 +1313,28 @@ func toInt(v interface{}) (int, error) {
 		return val, nil
 	case int64:
 		return int(val), nil
+	case int8:
+		return int(val), nil
+	case int16:
+		return int(val), nil
+	case int32:
+		return int(val), nil
+	case uint8:
+		return int(val), nil
+	case uint16:
+		return int(val), nil
+	case uint32:
+		return int(val), nil
+	case uint:
+		if uint64(val) > math.MaxInt {
+			return 0, fmt.Errorf("%d is too large for an int", val)
+		}
+		return int(val), nil
+	case uint64:
+		if val > math.MaxInt {
+			return 0, fmt.Errorf("%d is too large for an int", val)
+		}
+		return int(val), nil
 	case float64:
 		return int(val), nil
 	case string:
